@@ -101,7 +101,8 @@ class CompressionHandler:
                 with contextlib.suppress(ValueError, IndexError):
                     parsed_headers[alg_name] = float(alg[1].split("=")[1])
 
-        return [pair[0] for pair in sorted(parsed_headers.items(), key=lambda kv: kv[1], reverse=True)]
+        # q=0 means "not acceptable" (RFC 7231, 5.3.4)
+        return [pair[0] for pair in sorted(parsed_headers.items(), key=lambda kv: kv[1], reverse=True) if pair[1] > 0]
 
 
 class GzipCompressionHandler(AbstractDataCompressor):
